@@ -109,6 +109,12 @@ func c04E3sticky(c *core.Check, fns []*ssa.Function) {
 			if t, ok := errSucc.Instrs[len(errSucc.Instrs)-1].(*ssa.If); ok && dependsOn(t.Cond, x, 0) {
 				continue
 			}
+			// fallback idiom: the error of a library call (not a diagnosis of this repository) selects an alternative way to
+			// compute the same value, and the error of the alternative is discarded explicitly (`v, _ = f(…)`): the first
+			// error is handled by the retry, it was never meant to be reported
+			if isFallbackRetry(errSucc, x) {
+				continue
+			}
 			seen++
 			n++
 			key := fmt.Sprintf("%s/err-branch#%d", core.FuncName(fn), seen)
@@ -293,4 +299,42 @@ func stickyPaths(fn *ssa.Function, from, start *ssa.BasicBlock, tracked ssa.Valu
 	}
 	walk(init, from, start, 0)
 	return
+}
+
+// isFallbackRetry recognises `v, err := lib(…); if err != nil { v, _ = lib(…) }`: err is the error result of a call into a
+// package outside the repository, and the error branch consists of one call to the same function whose error result is
+// never used, after which control rejoins the normal path.
+func isFallbackRetry(errSucc *ssa.BasicBlock, x ssa.Value) bool {
+	ex, ok := x.(*ssa.Extract)
+	if !ok {
+		return false
+	}
+	first, ok := ex.Tuple.(*ssa.Call)
+	if !ok || first.Call.StaticCallee() == nil || core.InRepo(first.Call.StaticCallee()) {
+		return false
+	}
+	retries := 0
+	for _, ins := range errSucc.Instrs {
+		switch v := ins.(type) {
+		case *ssa.Call:
+			if v.Call.StaticCallee() != first.Call.StaticCallee() {
+				return false
+			}
+			// the retry's error result must be unused
+			for _, ref := range *v.Referrers() {
+				if e2, ok := ref.(*ssa.Extract); ok && rules.IsErrorType(e2.Type()) {
+					for _, r3 := range *e2.Referrers() {
+						if _, dbg := r3.(*ssa.DebugRef); !dbg {
+							return false // the retry's error is looked at after all
+						}
+					}
+				}
+			}
+			retries++
+		case *ssa.Extract, *ssa.Jump, *ssa.DebugRef:
+		default:
+			return false
+		}
+	}
+	return retries == 1
 }
